@@ -72,6 +72,10 @@ document gives the value back (in its strictly tagged form) — so such a value 
 theorem json_rejects_partial (v : R) (hv : strictOk v = true) (j : J) (h : fromArrai true v = .ok j) :
     toArrai true j = tag v := rejects v hv j h
 
+/-- the class is not an artefact: every strictly decoded value lies in it (so `json_rejects_partial`
+covers all values a document can denote) -/
+theorem json_decoded_in_class (j : J) : strictOk (toArrai true j) = true := strictOk_toArrai j
+
 /-- the full-strength statement: every value is rejected or preserved -/
 def json_rejects_full : Prop := ∀ (v : R) (j : J), fromArrai true v = .ok j → toArrai true j = tag v
 
